@@ -14,12 +14,6 @@ static const char FOLLOW[] =
 	"SELECTED_OUTPUT\n -reset false\n -pH\n -totals Ca\n"
 	"END\n";
 
-static const char *known_trigger(const std::string &text)
-{
-	(void)text;
-	return 0;
-}
-
 extern "C" int LLVMFuzzerInitialize(int *argc, char ***argv)
 {
 	(void)argc; (void)argv;
@@ -41,7 +35,10 @@ extern "C" int LLVMFuzzerTestOneInput(const uint8_t *data, size_t size)
 	FuzzedDataProvider fdp(data, size);
 	unsigned sw = fdp.ConsumeIntegral<uint8_t>();
 	std::string text = fdp.ConsumeRemainingBytesAsString();
+	if (names_outside_path(text)) { g_cnt["skipped_outside_path"]++; return 0; }
 	if (const char *k = known_trigger(text)) { g_cnt[std::string("skipped_known_") + k]++; return 0; }
+	uint8_t mb = 0xdb;
+	uint64_t h = fnv((const uint8_t *)text.data(), text.size(), fnv(&mb, 1));
 
 	FI *I = g_I;
 	if (!g_fresh) load_small(I, "at start of iteration");
@@ -66,8 +63,7 @@ extern "C" int LLVMFuzzerTestOneInput(const uint8_t *data, size_t size)
 		size_t nl = count_nonblank_lines(text.c_str(), strlen(text.c_str()));
 		if (reached && nl >= 2) {
 			g_cnt["nontrivial"]++;
-			uint8_t m = 0xdb;
-			if (g_nt.size() < NT_CAP) g_nt.insert(fnv((const uint8_t *)text.data(), text.size(), fnv(&m, 1)));
+			note_nt_hash(h);
 		}
 	}
 	g_cnt[failed ? "calls_failed" : "calls_ok"]++;
@@ -89,8 +85,7 @@ extern "C" int LLVMFuzzerTestOneInput(const uint8_t *data, size_t size)
 		failed = failed || c2.failed;
 	}
 	if (failed) {
-		reload_and_probe(I, "failed database load / follow-up");
-		load_small(I, "after the probe");
+		reload_and_probe(I, "failed database load / follow-up", h);
 	} else {
 		load_small(I, "after a successful load");
 	}
